@@ -10,6 +10,8 @@ SInt   z3 Int leaf with declared inclusive bounds.
 """
 import z3
 
+from .mdd import THE as _MDD, TRUE as _DD_TRUE, FALSE as _DD_FALSE
+
 
 class Unsupported(Exception):
     """Construct / call outside the engine's model: the run is inconclusive (never a verdict)."""
@@ -64,14 +66,17 @@ class CharVar:
 
 
 class SBool:
-    """Unary: (var, allowed) meaning var in allowed.  General: z3 expr in .e"""
+    """Three forms:  unary  (var, allowed): var in allowed            [solver-free]
+                     dd     MDD over the character variables          [solver-free, see mdd.py]
+                     general z3 expression in ._e"""
 
-    __slots__ = ("var", "allowed", "_e", "mask", "cmask")
+    __slots__ = ("var", "allowed", "_e", "mask", "cmask", "dd")
 
-    def __init__(self, e=None, var=None, allowed=None):
+    def __init__(self, e=None, var=None, allowed=None, dd=None):
         self._e = e
         self.var = var
         self.allowed = allowed
+        self.dd = dd
         if var is not None:
             self.mask = var.mask(allowed)
             self.cmask = var.fullmask & ~self.mask
@@ -83,16 +88,30 @@ class SBool:
     @property
     def e(self):
         if self._e is None:
-            v = self.var
-            if len(self.allowed) * 2 <= len(v.alpha):
-                self._e = z3.Or([v.z == ord(a) for a in sorted(self.allowed)])
+            if self.var is not None:
+                v = self.var
+                if len(self.allowed) * 2 <= len(v.alpha):
+                    self._e = z3.Or([v.z == ord(a) for a in sorted(self.allowed)])
+                else:
+                    self._e = z3.Not(z3.Or([v.z == ord(a) for a in sorted(v.full - self.allowed)]))
             else:
-                self._e = z3.Not(z3.Or([v.z == ord(a) for a in sorted(v.full - self.allowed)]))
+                self._e = _MDD.to_z3(self.dd)
         return self._e
+
+    def as_dd(self):
+        """MDD node of the condition or None (general)"""
+        if self.dd is not None:
+            return self.dd
+        if self.var is not None:
+            self.dd = _MDD.restrict(_DD_TRUE, self.var, self.mask)
+            return self.dd
+        return None
 
     def key(self):
         if self.var is not None:
-            return ("u", self.var.idx, tuple(sorted(self.allowed)))
+            return ("u", self.var.idx, self.mask)
+        if self.dd is not None:
+            return ("d", self.dd.id)
         return ("g", self._e.get_id())
 
     def __bool__(self):
@@ -101,6 +120,8 @@ class SBool:
     def __repr__(self):
         if self.var is not None:
             return f"SBool({self.var.name} in {sorted(self.allowed)!r})"
+        if self.dd is not None:
+            return f"SBool(dd#{self.dd.id})"
         return f"SBool({self._e})"
 
 
@@ -113,12 +134,27 @@ def mk_unary(var, allowed):
     return SBool(var=var, allowed=allowed)
 
 
+def from_dd(n):
+    if n is _DD_TRUE:
+        return True
+    if n is _DD_FALSE:
+        return False
+    if all(ch is _DD_TRUE for _, ch in n.edges):
+        m = 0
+        for vals, _ in n.edges:
+            m |= vals
+        return SBool(var=n.var, allowed=n.var.unmask(m))
+    return SBool(dd=n)
+
+
 def b_not(a):
     if isinstance(a, bool):
         return not a
     if isinstance(a, SBool):
         if a.var is not None:
             return mk_unary(a.var, a.var.full - a.allowed)
+        if a.dd is not None:
+            return from_dd(_MDD.neg(a.dd))
         return SBool(z3.Not(a.e))
     raise EngineError(f"b_not on {type(a)}")
 
@@ -132,6 +168,9 @@ def b_and(a, b):
         return a
     if a.var is not None and a.var is b.var:
         return mk_unary(a.var, a.allowed & b.allowed)
+    da, db = a.as_dd(), b.as_dd()
+    if da is not None and db is not None:
+        return from_dd(_MDD.conj(da, db))
     return SBool(z3.And(a.e, b.e))
 
 
@@ -144,6 +183,9 @@ def b_or(a, b):
         return a
     if a.var is not None and a.var is b.var:
         return mk_unary(a.var, a.allowed | b.allowed)
+    da, db = a.as_dd(), b.as_dd()
+    if da is not None and db is not None:
+        return from_dd(_MDD.union(da, db))
     return SBool(z3.Or(a.e, b.e))
 
 
